@@ -42,6 +42,7 @@ func main() {
 		n := fs.Int("n", 1000, "approximate number of random cases")
 		tier := fs.String("tier", "quick", "tier")
 		factsDir := fs.String("facts", "/verif/build/facts", "facts dir")
+		focus := fs.String("focus", "", "comma-separated focus targets (msg:<Name>, type:<IEType>, entry, fn:<name>): deep search there only")
 		if len(os.Args) < 3 {
 			os.Exit(2)
 		}
@@ -54,6 +55,9 @@ func main() {
 		}
 		w := bufio.NewWriterSize(os.Stdout, 1<<20)
 		g := &Gen{s: *seed*0x9E3779B97F4A7C15 + 0x1234567, N: *n, Tier: *tier, Facts: *factsDir}
+		if *focus != "" {
+			g.Focus = strings.Split(*focus, ",")
+		}
 		f(g, w)
 		w.Flush()
 	case "run":
@@ -140,6 +144,76 @@ type Gen struct {
 	N     int
 	Tier  string
 	Facts string
+	Focus []string // non-empty: the run is a focused search (an obligation broke there); generators emit their deep families only
+}
+
+// focused reports whether a focus target `kind:name` (or the bare word kind) was requested
+func (g *Gen) focused(kind, name string) bool {
+	for _, f := range g.Focus {
+		if f == kind || f == kind+":"+name || f == kind+":*" {
+			return true
+		}
+	}
+	return false
+}
+
+var smallAlphabet = []byte{0, 1, 2, 3, 4, 5, 8, 0x0f, 0x10, 0x2e, 0x7e, 0x7f, 0x80, 0xf0, 0xff}
+
+// Content: n octets of element content. Uniform noise almost never looks like what a content-interpreting code path tests for,
+// so most draws are structured: constant fills, a small alphabet, an embedded type/identifier/16-bit-length header (EAP-like), a
+// counted list of 16-bit-length-prefixed entries, a run of 8-bit-length-prefixed entries.
+func (g *Gen) Content(n int) []byte {
+	b := make([]byte, n)
+	switch g.Intn(12) {
+	case 0:
+	case 1:
+		for i := range b {
+			b[i] = 0xff
+		}
+	case 2:
+		v := byte(g.U64())
+		for i := range b {
+			b[i] = v
+		}
+	case 3, 4:
+		for i := range b {
+			b[i] = smallAlphabet[g.Intn(len(smallAlphabet))]
+		}
+	case 5:
+		copy(b, g.Bytes(n))
+		if n >= 4 {
+			b[0] = byte(1 + g.Intn(4))
+			k := g.Intn(n + 2)
+			b[2], b[3] = byte(k>>8), byte(k)
+		}
+	case 6:
+		// [count][len16 entry]... consistent with n whenever possible
+		if n >= 1 {
+			pos, cnt := 1, 0
+			for pos+2 <= n && cnt < 255 && (cnt == 0 || g.Intn(3) != 0) {
+				room := n - pos - 2
+				e := g.Intn(min(room, 3) + 1)
+				if g.Intn(3) == 0 {
+					e = room // last entry takes what is left
+				}
+				b[pos], b[pos+1] = byte(e>>8), byte(e)
+				copy(b[pos+2:], g.Bytes(e))
+				pos += 2 + e
+				cnt++
+			}
+			b[0] = byte(cnt)
+		}
+	case 7:
+		for pos := 0; pos < n; {
+			e := g.Intn(min(n-pos-1, 6) + 1)
+			b[pos] = byte(e)
+			copy(b[pos+1:], g.Bytes(e))
+			pos += 1 + e
+		}
+	default:
+		copy(b, g.Bytes(n))
+	}
+	return b
 }
 
 func (g *Gen) U64() uint64 {
